@@ -207,7 +207,14 @@ func (m *Machine) codec(fr *frame, e encoding.Encoding, decode bool, src []value
 			}
 			return m.codec(fr, e, decode, bytesValue(cb))
 		}
-		enginePanic("UNSUPPORTED: %s codec on %d symbolic bytes (no model)", nativeName(e), nsym)
+		// havoc: x/text is third-party; with many symbolic bytes and no model its output is left
+		// arbitrary: empty output, and success or failure chosen by a fresh symbol (both explored)
+		m.havocN++
+		hv := m.C.Var(fmt.Sprintf("havoc%d_%s", m.havocN, nativeName(e)), term.BoolSort)
+		if m.branch(hv) {
+			return nil, iface{}
+		}
+		return nil, m.errorIface(fmt.Errorf("havoc: codec failed"))
 	}
 	fname := "ModelEncode" + model
 	if decode {
